@@ -171,7 +171,11 @@ doc = {
               'kind_free_text': 'own deterministic simulator: key-addressed choice tape, virtual clock, simulated process pool, fault layer in front of h5py/numpy/json, ddmin shrinker, replay files'}],
  'checks': checks,
  'not_applicable': na,
- 'notes': 'See DESIGN.md. Exit codes of ./check: 0 held, 1 VIOLATION, 2 harness error.',
+ 'notes': ('See DESIGN.md. ./check <id> [--tier quick|thorough] [--replay file]; exit 0 held (KNOWN-FINDING lines possible), '
+           '1 VIOLATION property=<id> replay=<path>, 2 harness error. One integer (VERIF_SEED) decides every run; runs execute in '
+           'forked processes (hermetic); violations are minimised, replayed in a fresh interpreter and matched against '
+           'known_findings.json. Evidence files are rewritten by every run. seeded/ holds 42 independently written changes '
+           'with the check results (all caught); ./check selftest is the determinism self-test; run_all.sh runs every check.'),
 }
 json.dump(doc, open('MANIFEST.json', 'w'), indent=1)
 print('claimed', sorted(BUILT), 'na', len(na))
